@@ -33,6 +33,41 @@ FIELD_TYPES = {
 NULLABLE = ["ParserErrorListener.logger"]
 
 
+# ghost observers: symbolically a ghost field of the ANTLR object, natively computed from the real object
+@spec(ghost="Recognizer.g_raising_listener")
+def raising_listener(rec: "ref:Recognizer") -> bool:
+    """a listener whose syntaxError raises on every call is registered on the recognizer"""
+    from cminx.parser import ParserErrorListener
+    return any(isinstance(l, ParserErrorListener) for l in rec._listeners)
+
+
+@spec(ghost="InputStream.g_encoding")
+def stream_encoding(inp: "ref:InputStream") -> str:
+    """the codec the stream was decoded with (natively: the stream's text is the UTF-8 decoding of the file)"""
+    with open(inp.fileName, encoding="utf-8", newline="") as f:
+        return "utf-8" if inp.strdata == f.read() else "other"
+
+
+@spec(ghost="InputStream.g_file")
+def stream_file(inp: "ref:InputStream") -> str:
+    return inp.fileName
+
+
+@spec(ghost="CMakeLexer.g_input")
+def lexer_input(lx: "ref:CMakeLexer") -> "ref:InputStream":
+    return lx._input
+
+
+@spec(ghost="CommonTokenStream.g_lexer")
+def tokens_lexer(ts: "ref:CommonTokenStream") -> "ref:CMakeLexer":
+    return ts.tokenSource
+
+
+@spec(ghost="CMakeParser.g_tokens")
+def parser_tokens(ps: "ref:CMakeParser") -> "ref:CommonTokenStream":
+    return ps._input
+
+
 # ------------------------------------------------------------------------------------------------ T-ANTLR (runtime)
 @contract("ext:FileStream")
 class ext_FileStream:
@@ -199,10 +234,10 @@ class Documenter_init:
                 len(self.aggregator.documented) == 0 and documenter_owns(self))
 
     def ensures_wiring(self, file, title, module_name, settings):
-        return (self.input_stream.g_file == file and self.input_stream.g_encoding == "utf-8" and
-                same(self.lexer.g_input, self.input_stream) and same(self.stream.g_lexer, self.lexer) and
-                same(self.parser.g_tokens, self.stream) and
-                self.lexer.g_raising_listener and self.parser.g_raising_listener and
+        return (stream_file(self.input_stream) == file and stream_encoding(self.input_stream) == "utf-8" and
+                same(lexer_input(self.lexer), self.input_stream) and same(tokens_lexer(self.stream), self.lexer) and
+                same(parser_tokens(self.parser), self.stream) and
+                raising_listener(self.lexer) and raising_listener(self.parser) and
                 typeof(self.parser._errHandler, "BailErrorStrategy"))
     modifies = ["fields(self)"]
 
